@@ -18,7 +18,7 @@ TITLE = 'Z-method knees are valid, height-ordered and mutually separated'
 RULE = 'cases = (curve, dx, dy, dz, x_max, y_range), full product below the bound; non-trivial = at least two knees reported (ordering and separation clauses bite)'
 ASSUMPTIONS = ['uts.gradient.csd / uts.zscore.zscore_array trusted (used only to compute the iteration budget from min z)',
                'y separation compared with an absolute slack of 1e-12']
-BOUNDS = {'quick': {'M (x0=1, gaps {1,2}, y in {0,1/4,1/2,1})': 'n=4,5 complete; n=6 unit gaps', 'parameters': '4 (dx,dy,dz) x x_max {None,3n} x y_range {None,[1,0],[2,0]}'},
+BOUNDS = {'quick': {'M (x0=1, gaps {1,2}, y in {0,1/4,1/2,1})': 'n=4,5 complete; n=6 unit gaps', 'parameters': '4 (dx,dy,dz) x x_max {None,3n} x y_range {None,[1,0],[2,0]}', 'also': 'M with x0=1000 (n=5); every window of 10 points of usr0.csv[::64] and of 12 points of usr0.csv[::8][:400]'},
           'thorough': {'M': 'n=4..6 complete; n=7 unit gaps', 'parameters': 'same'}}
 TECHNIQUE = 'bounded-exhaustive enumeration of miss-ratio curves and parameters on the real Z-method under a step monitor; pairwise separation / ordering invariants'
 LEVEL_TEXT = ('Model checking: every curve of the miss-ratio alphabet up to the bound, every parameter combination; termination within the stated iteration bound, index validity, '
@@ -32,6 +32,8 @@ M1 = curves.register(curves.M.restrict('M1', gaps=(1,)))
 def units(tier, seed):
     plan = [('M', 4, 4), ('M', 5, 48), ('M1', 6, 16)] if tier == 'quick' else [('M', 4, 2), ('M', 5, 16), ('M', 6, 320), ('M1', 7, 64)]
     extra = [(0.3, 0.1, 0.7), (0.1, 0.3, 0.2), (0.25, 0.25, 0.25), (0.4, 0.05, 1.5), (0.05, 0.4, 0.4), (0.15, 0.15, 0.9)][seed % 6]
+    plan += [('Tusr0s64', 10, 16), ('Tusr0s8', 12, 48)] if tier == 'quick' else [('Tusr0s64', 10, 16), ('Tusr0s64', 24, 16), ('Tusr0s8', 12, 48), ('Tusr0s8', 40, 48)]
+    plan.append((curves.register(curves.M.restrict('Mbig', x0s=(1000,))).name, 5, 48))
     return [(prof, n, k, K, extra) for prof, n, K in plan for k in range(K)]
 
 
